@@ -9,7 +9,7 @@ from fractions import Fraction
 import numpy as np
 from vlib import *
 
-DEFS = ('From Coq Require Import String.\nImport ListNotations.\nOpen Scope string_scope.\nOpen Scope list_scope.\nOpen Scope Q_scope.\n')
+DEFS = ('From Coq Require Import String.\nImport ListNotations.\nOpen Scope string_scope.\nOpen Scope list_scope.\nOpen Scope Q_scope.\nOpen Scope Z_scope.\n')
 
 # ------------------------------------------------------------------------------------------------
 # encoding <-> python <-> Coq
@@ -139,6 +139,7 @@ def fr(e):
 
 
 HELPERS = {}
+NOMODEL = object()
 
 
 def helper(name):
@@ -267,7 +268,7 @@ class ConvolveMany:
                     if abs(Fraction(float(sum(v))) - p) > Fraction(1, 10**11):
                         chk.fail('convolve_many|mass', 'sum %r != product of sums %r' % (float(sum(v)), float(p)), c)
         # correspondence
-        if m is not None:
+        if m is not NOMODEL:
             chk.traces += 1
             mm = model_res(m[1] if isinstance(m, tuple) and m[0] == 'Some' else m, lambda l: [qv(x) for x in l])
             if mm[0] == 'err':
@@ -320,7 +321,7 @@ class SumOfDiscretes:
                 chk.fail('sum_of_discretes_distribution|pmf', 'pmf(%d) = %r, brute force %r' % (k, float(pm[i]), float(e)), c); break
             if abs(Fraction(float(cd[i])) - cum) > Fraction(1, 10**11):
                 chk.fail('sum_of_discretes_distribution|cdf', 'cdf(%d) = %r, brute force %r' % (k, float(cd[i]), float(cum)), c); break
-        if m is not None:
+        if m is not NOMODEL:
             chk.traces += 1
             mm = model_res(m[1] if isinstance(m, tuple) and m[0] == 'Some' else m, lambda l: [qv(x) for x in l])
             got = [Fraction(float(x)) for x in r[1].pmf(list(range(n * lo, n * hi + 1)))]
@@ -354,7 +355,7 @@ class DUPmf:
         kind = 'int' if c['n'][0] == 'I' else ('float-int' if c['n'][0] == 'F' and c['n'][2] == 1 else 'non-integer')
         chk.count('sum_of_discrete_uniforms_pmf:n-%s' % kind)
         r = call(H.sum_of_discrete_uniforms_pmf, n, lo, hi)
-        mm = model_res(m, lambda l: [(k, qv(v)) for k, v in l]) if m is not None else None
+        mm = model_res(m, lambda l: [(k, qv(v)) for k, v in l]) if m is not NOMODEL else None
         if mm is not None:
             chk.traces += 1
             if mm[0] == 'err':
@@ -433,7 +434,8 @@ class IrwinHall:
         cnt = 1 if shape == 'scalar' else (4 if shape == 'nd2' else rng.randint(0, 5))
         xs = []
         for _ in range(cnt):
-            u = pick_w(rng, [(Fraction(rng.randint(-16, 8 * n + 16), 8), 6), (Fraction(rng.randint(0, n)), 2), (Fraction(rng.randint(-2 * n, 3 * n), 3), 1)])
+            u = pick_w(rng, [(Fraction(rng.randint(-16, 8 * n + 16), 8), 6), (Fraction(rng.randint(0, n)), 2), (Fraction(rng.randint(-2 * n, 3 * n), 3), 1),
+                             (Fraction(rng.choice([3, 10, 25, 100, 1000]) * n * 2 + 1, 2), 1.2 if via == 'irwin' else 0.3)])   # far above the support
             x = Fraction(float(n * lo + u * (hi - lo)))
             xs.append([x.numerator, x.denominator])
         return dict(via=via, n=n, lo=[lo.numerator, lo.denominator], hi=[hi.numerator, hi.denominator], shape=shape, xs=xs)
@@ -470,7 +472,7 @@ class IrwinHall:
                 chk.fail('irwin_hall_cdf|x-above-n-not-1', 'irwin_hall_cdf(%r, %d) = %r, the cdf is 1 for x >= n' % (float(x), n, float(y)), c); break
             if abs(y - e) > tol:
                 chk.fail(name + '|value', 'cdf(%r) = %r but the exact piecewise polynomial gives %r (n=%d lo=%s hi=%s)' % (float(x), float(y), float(e), n, lo, hi), c); break
-        if m is not None:
+        if m is not NOMODEL:
             chk.traces += 1
             mv = [qv(p) for p in m]
             if len(mv) != len(got) or any(abs(a - b) > tol for a, b in zip(mv, got)):
@@ -545,7 +547,7 @@ class FindNearest:
                                      % (v, i, a[i] if 0 <= i < len(a) else None, dist[i] if 0 <= i < len(a) else None, min(dist), dist.index(min(dist))), c)
                         elif not c['sorted'] and i != dist.index(min(dist)):
                             chk.fail('find_nearest|unsorted-tie-not-first', 'value %s: argmin returns the first closest index %d, got %d' % (v, dist.index(min(dist)), i), c)
-        if m is not None:
+        if m is not NOMODEL:
             chk.traces += 1
             mm = model_res(m, list)
             if mm[0] == 'err':
@@ -629,7 +631,7 @@ class DictMatch:
             elif r[1] is not want:
                 chk.fail('dict_match|wrong-answer|presence=%s' % rp, 'dict_match = %r, documented semantics (missing key = 0%s, |a-b| <= max(rel*max(|a|,|b|), abs)) give %r'
                          % (r[1], ' unless require_presence' if rp else '', want), c)
-        if m is not None:
+        if m is not NOMODEL:
             chk.traces += 1
             mm = model_res(m)
             if (mm[0] == 'err' and not (r[0] == 'err' and r[1] == mm[1])) or (mm[0] == 'ok' and not (r[0] == 'ok' and r[1] is mm[1])):
@@ -662,7 +664,7 @@ class MinOfDict:
             if r[0] == 'err': chk.fail('min_of_dict|raises-%s' % r[1], r[2], c)
             elif canon(r[1][0]) != strip(pairs[i][1]) or canon(r[1][1]) != strip(pairs[i][0]):
                 chk.fail('min_of_dict|wrong-min', 'got %r, the minimum value %s is first attained at key %r' % (r[1], vals[i], to_py(pairs[i][0])), c)
-        if m is not None:
+        if m is not NOMODEL:
             chk.traces += 1
             mm = model_res(m, lambda t: (qv(t[0]), from_ov(t[1])))
             if mm[0] == 'err':
@@ -696,9 +698,625 @@ class NearestDictValue:
             if r[0] == 'err': chk.fail('nearest_dict_value|raises-%s' % r[1], r[2], c)
             elif canon(r[1]) not in [strip(v) for (k, v), dd in zip(pairs, dist) if dd == min(dist)]:
                 chk.fail('nearest_dict_value|not-nearest', 'got %r; nearest key to %s is %r' % (r[1], x, to_py(pairs[dist.index(min(dist))][0])), c)
-        if m is not None:
+        if m is not NOMODEL:
             chk.traces += 1
             mm = model_res(m, from_ov)
             if (mm[0] == 'err' and not (r[0] == 'err' and r[1] == mm[1])) or (mm[0] == 'ok' and not (r[0] == 'ok' and canon(r[1]) == mm[1])):
                 chk.mismatch('nearest_dict_value: model %r vs implementation %r' % (mm, r), c)
         chk.case(c, len(pairs) >= 2 and not bad)
+
+
+# ================================================================================================
+# list / dict normalisers
+
+def g_num_list(rng, n, flavor):
+    if flavor == 'ndarray':
+        g = rng.choice([g_int, g_dy]); return eL([g(rng) for _ in range(n)], 'ndarray')
+    return eL([pick_w(rng, [(g_int, 3), (g_dy, 2)])(rng) for _ in range(n)], flavor)
+
+
+@helper('ensure_list_for_time_periods')
+class EnsureTP:
+    def gen(self, rng, tier):
+        T = rng.randint(0, 6)
+        kind = pick_w(rng, [('scalar', 3), ('list', 5), ('ndarray', 3), ('other-singleton', 1)])
+        if kind == 'scalar': x = pick_w(rng, [(g_int, 1), (g_dy, 1)])(rng)
+        elif kind == 'other-singleton': x = rng.choice([eN(), eS('abc')])
+        else: x = g_num_list(rng, max(0, T + pick_w(rng, [(0, 4), (1, 4), (-1, 1), (2, 1), (3, 0.5)])), kind)
+        return dict(x=x, T=T, var_name=rng.choice([None, 'demand']))
+
+    def expr(self, c):
+        x = c['x']
+        if x[0] in 'NS': return None          # the Q-valued model of Alg/WW.v covers numeric scalars / lists
+        a = '(TPList %s)' % cqlist([fr(v) for v in x[1]]) if x[0] == 'L' else '(TPScalar %s)' % cq(fr(x))
+        return 'option_map (map qobs) (ensure_list_tp %s %s)' % (a, cnat(c['T']))
+
+    def judge(self, chk, c, m):
+        x = to_py(c['x']); b = copy.deepcopy(x); T = c['T']; e = nd_elems(c['x'])
+        chk.count('ensure_list_for_time_periods:%s' % ('singleton' if e[0] != 'L' else 'len=T%+d' % (len(e[1]) - T)))
+        r = call(H.ensure_list_for_time_periods, x, T, c['var_name']) if c['var_name'] else call(H.ensure_list_for_time_periods, x, T)
+        if not same(x, b): chk.fail('ensure_list_for_time_periods|mutates-argument', 'x changed', c)
+        # documented result
+        if e[0] != 'L': want = ['L', [eI(0)] + [strip(e)] * T]
+        elif len(e[1]) == T + 1: want = strip(e)
+        elif len(e[1]) == T: want = ['L', [eI(0)] + strip(e)[1]]
+        else: want = None
+        if want is None:
+            if not (r[0] == 'err' and r[1] == 'ValueError'): chk.fail('ensure_list_for_time_periods|bad-length-accepted', 'documented ValueError, got %r' % (r[:2],), c)
+        elif r[0] == 'err': chk.fail('ensure_list_for_time_periods|raises-%s' % r[1], r[2], c)
+        elif not isinstance(r[1], list) or canon(r[1]) != want:
+            chk.fail('ensure_list_for_time_periods|wrong-result', 'got %r, documented %r' % (r[1], want), c)
+        if m is not NOMODEL:
+            chk.traces += 1
+            if m is None:
+                if r[0] != 'err': chk.mismatch('ensure_list_for_time_periods: model None (ValueError) vs %r' % (r,), c)
+            else:
+                mv = [qv(p) for p in (m[1] if isinstance(m, tuple) and m[0] == 'Some' else m)]
+                if r[0] != 'ok' or [F(v) for v in r[1]] != mv: chk.mismatch('ensure_list_for_time_periods: model %r vs %r' % (mv, r), c)
+        chk.case(c, e[0] == 'L' and len(e[1]) in (T, T + 1) and T >= 1)
+
+
+@helper('ensure_list_for_nodes')
+class EnsureListNodes:
+    def gen(self, rng, tier):
+        n = pick_w(rng, [(0, 1), (1, 2), (2, 3), (3, 3), (5, 1), (-1, 0.3)])
+        kind = pick_w(rng, [('none', 2), ('scalar', 3), ('list', 4), ('tuple', 1), ('ndarray', 2), ('dict', 1), ('nested', 1)])
+        ln = max(0, n + pick_w(rng, [(0, 5), (1, 2), (-1, 2), (2, 1)]))
+        if kind == 'none': x = eN()
+        elif kind == 'scalar': x = g_scalar(rng, 0)
+        elif kind == 'dict': x = g_dict(rng, ln, 'is', 0.1)
+        elif kind == 'nested': x = eL([rng.choice([eL([g_int(rng)]), g_scalar(rng)]) for _ in range(ln)])
+        elif kind == 'ndarray': x = g_num_list(rng, ln, 'ndarray')
+        else: x = eL([g_scalar(rng) for _ in range(ln)], kind)
+        return dict(x=x, n=n, default=pick_w(rng, [(None, 2), (g_scalar(rng), 1)]))
+
+    def expr(self, c):
+        return 'rmap (map obs_pv) (ensure_list_for_nodes %s %s %s)' % (coq_pv(c['x']), cz(c['n']), coq_pv(c['default'] or eN()))
+
+    def judge(self, chk, c, m):
+        x = to_py(c['x']); b = copy.deepcopy(x); n = c['n']; e = nd_elems(c['x'])
+        r = call(H.ensure_list_for_nodes, x, n, to_py(c['default'])) if c['default'] else call(H.ensure_list_for_nodes, x, n)
+        if not same(x, b): chk.fail('ensure_list_for_nodes|mutates-argument', 'x changed', c)
+        shape = 'None' if e[0] == 'N' else ('singleton' if e[0] not in 'LD' else '%s,len=n%+d' % ('dict' if e[0] == 'D' else 'list', len(e[1]) - n))
+        chk.count('ensure_list_for_nodes:%s' % shape)
+        if n >= 0 and e[0] != 'D':
+            if e[0] == 'N': want = ['L', [strip(c['default'] or eN())] * n]
+            elif e[0] == 'L': want = strip(e) if len(e[1]) == n else None
+            else: want = ['L', [strip(e)] * n]
+            if want is None:
+                if not (r[0] == 'err' and r[1] == 'ValueError'): chk.fail('ensure_list_for_nodes|bad-length-accepted', 'documented ValueError, got %r' % (r[:2],), c)
+            elif r[0] == 'err': chk.fail('ensure_list_for_nodes|raises-%s' % r[1], r[2], c)
+            elif not isinstance(r[1], list) or canon(r[1]) != want: chk.fail('ensure_list_for_nodes|wrong-result', 'got %r, documented %r' % (r[1], want), c)
+        if m is not NOMODEL:
+            chk.traces += 1
+            mm = model_res(m, lambda l: ['L', [from_ov(v) for v in l]])
+            if (mm[0] == 'err' and not (r[0] == 'err' and r[1] == mm[1])) or (mm[0] == 'ok' and not (r[0] == 'ok' and canon(r[1]) == mm[1])):
+                chk.mismatch('ensure_list_for_nodes: model %r vs implementation %r' % (mm, r), c)
+        chk.case(c, n >= 1 and e[0] in 'LN')
+
+
+def g_nodes(rng, n, dup=0.08):
+    kinds = rng.choice(['i', 'i', 's'])
+    out = []; seen = set()
+    while len(out) < n:
+        k = g_key(rng, kinds, 0.03) if kinds == 's' else eI(rng.randint(0, 9))
+        if key_id(k) in seen and rng.random() > dup: continue
+        seen.add(key_id(k)); out.append(k)
+    return out
+
+
+def dict_from_pairs(pairs):
+    """python dict semantics on encodings: later assignment to an equal key overwrites in place"""
+    out = []; pos = {}
+    for k, v in pairs:
+        if key_id(k) in pos: out[pos[key_id(k)]][1] = v
+        else: pos[key_id(k)] = len(out); out.append([k, v])
+    return ['D', out]
+
+
+@helper('ensure_dict_for_nodes')
+class EnsureDictNodes:
+    def gen(self, rng, tier):
+        n = pick_w(rng, [(0, 1), (1, 2), (2, 3), (3, 3), (5, 1)])
+        nodes = g_nodes(rng, n)
+        kind = pick_w(rng, [('none', 2), ('scalar', 3), ('list', 4), ('tuple', 1), ('ndarray', 2), ('dict', 2)])
+        ln = max(0, n + pick_w(rng, [(0, 5), (1, 2), (-1, 2), (2, 1)]))
+        if kind == 'none': x = eN()
+        elif kind == 'scalar': x = g_scalar(rng, 0)
+        elif kind == 'dict': x = g_dict(rng, ln, 'is', 0.1)
+        elif kind == 'ndarray': x = g_num_list(rng, ln, 'ndarray')
+        else: x = eL([g_scalar(rng) for _ in range(ln)], kind)
+        return dict(x=x, nodes=nodes, default=pick_w(rng, [(None, 2), (g_scalar(rng), 1)]), nodes_flavor=rng.choice(['list', 'list', 'tuple']))
+
+    def expr(self, c):
+        return 'rmap obs_dict (ensure_dict_for_nodes %s %s %s)' % (coq_pv(c['x']), clist([coq_key(k) for k in c['nodes']]), coq_pv(c['default'] or eN()))
+
+    def judge(self, chk, c, m):
+        x = to_py(c['x']); b = copy.deepcopy(x); e = nd_elems(c['x']); nodes = c['nodes']; n = len(nodes)
+        nl = [to_py(k) for k in nodes]; nl = tuple(nl) if c['nodes_flavor'] == 'tuple' else nl; nb = copy.deepcopy(nl)
+        r = call(H.ensure_dict_for_nodes, x, nl, to_py(c['default'])) if c['default'] else call(H.ensure_dict_for_nodes, x, nl)
+        if not (same(x, b) and same(nl, nb)): chk.fail('ensure_dict_for_nodes|mutates-argument', 'x or node_indices changed', c)
+        shape = 'None' if e[0] == 'N' else ('dict' if e[0] == 'D' else ('singleton' if e[0] != 'L' else 'list,len=n%+d' % (len(e[1]) - n)))
+        chk.count('ensure_dict_for_nodes:%s' % shape)
+        if e[0] == 'D': want = strip(e)
+        elif e[0] == 'N': want = strip(dict_from_pairs([[k, c['default'] or eN()] for k in nodes]))
+        elif e[0] == 'L': want = strip(dict_from_pairs(list(zip(nodes, e[1])))) if len(e[1]) == n else None
+        else: want = strip(dict_from_pairs([[k, e] for k in nodes]))
+        if want is None:
+            if not (r[0] == 'err' and r[1] == 'ValueError'): chk.fail('ensure_dict_for_nodes|bad-length-accepted', 'documented ValueError, got %r' % (r[:2],), c)
+        elif r[0] == 'err': chk.fail('ensure_dict_for_nodes|raises-%s' % r[1], r[2], c)
+        elif not isinstance(r[1], dict) or canon(r[1]) != want: chk.fail('ensure_dict_for_nodes|wrong-result', 'got %r, documented %r' % (r[1], want), c)
+        if m is not NOMODEL:
+            chk.traces += 1
+            mm = model_res(m, from_ov)
+            if (mm[0] == 'err' and not (r[0] == 'err' and r[1] == mm[1])) or (mm[0] == 'ok' and not (r[0] == 'ok' and canon(r[1]) == mm[1])):
+                chk.mismatch('ensure_dict_for_nodes: model %r vs implementation %r' % (mm, r), c)
+        chk.case(c, n >= 1 and e[0] != 'D')
+
+
+ATTRS = ['local_holding_cost', 'stockout_cost', 'demand_mean', 'lead_time', 'demand_list', 'probabilities', 'name']
+
+
+@helper('build_node_data_dict')
+class BuildNodeData:
+    def gen(self, rng, tier):
+        n = pick_w(rng, [(0, 0.5), (1, 2), (2, 3), (3, 3), (4, 1)])
+        nodes = g_nodes(rng, n, dup=0.0)
+        attrs = rng.sample(ATTRS, rng.randint(0, 5))
+        ad = []
+        for a in attrs:
+            kind = pick_w(rng, [('none', 2), ('scalar', 3), ('list', 4), ('dict', 3), ('badlen', 0.6), ('tuple', 0.5)])
+            if a in ('demand_list', 'probabilities'):
+                kind = pick_w(rng, [('none', 1), ('flat', 3), ('nestedlist', 3), ('dict', 1), ('nestedbad', 0.5)])
+            if kind == 'none': v = eN()
+            elif kind == 'scalar': v = g_scalar(rng, 0)
+            elif kind in ('list', 'tuple'): v = eL([g_scalar(rng) for _ in range(n)], kind)
+            elif kind == 'badlen': v = eL([g_scalar(rng) for _ in range(n + rng.choice([1, 2]))])
+            elif kind == 'flat': v = eL([g_int(rng, 0, 5) for _ in range(rng.choice([n, n + 1, 2]))])
+            elif kind in ('nestedlist', 'nestedbad'):
+                v = eL([rng.choice([eN(), eL([g_int(rng, 0, 5) for _ in range(rng.randint(1, 3))])]) for _ in range(n + (kind == 'nestedbad'))])
+                if not any(x[0] == 'L' for x in v[1]): v = eL([eL([eI(1)])] * max(1, n))
+            else:
+                pairs = [[k, g_scalar(rng)] for k in nodes if rng.random() < 0.6]
+                if rng.random() < 0.3: pairs.append([eI(77), eI(1)])
+                v = dict_from_pairs(pairs)
+            ad.append([eS(a), v])
+        dv = [[eS(a), g_scalar(rng, 0)] for a in ATTRS if rng.random() < 0.35]
+        return dict(ad=['D', ad], nodes=nodes, dv=['D', dv] if (dv or rng.random() < 0.5) else None)
+
+    def expr(self, c):
+        return 'rmap obs_ddict (build_node_data_dict %s %s %s)' % (coq_dict(c['ad']), clist([coq_key(k) for k in c['nodes']]), coq_dict(c['dv'] or ['D', []]))
+
+    def documented(self, c):
+        """independent re-computation from the docstring's rules"""
+        nodes = c['nodes']; dv = {a[1]: v for a, v in (c['dv'] or ['D', []])[1]}
+        out = {key_id(n): [] for n in nodes}
+        for a, v in c['ad'][1]:
+            a = a[1]; v = strip(v)
+            listlike = v[0] == 'L' and (a not in ('demand_list', 'probabilities') or any(x[0] in 'LD' for x in v[1]))
+            if listlike and len(v[1]) != len(nodes): return None
+            for i, n in enumerate(nodes):
+                if v[0] == 'D':
+                    hit = [w for k, w in v[1] if key_id(k) == key_id(n)]
+                    val = hit[0] if hit else strip(dv.get(a, eN()))
+                elif v[0] == 'N': val = strip(dv.get(a, eN()))
+                elif listlike: val = v[1][i]
+                else: val = v
+                out[key_id(n)].append([eS(a), val])
+        return ['D', [[strip(n), ['D', out[key_id(n)]]] for n in nodes]]
+
+    def judge(self, chk, c, m):
+        ad = to_py(c['ad']); nodes = [to_py(k) for k in c['nodes']]; dv = to_py(c['dv']) if c['dv'] else None
+        before = copy.deepcopy((ad, nodes, dv))
+        r = call(H.build_node_data_dict, ad, nodes, dv) if dv is not None else call(H.build_node_data_dict, ad, nodes)
+        if not all(same(x, y) for x, y in zip((ad, nodes, dv), before)): chk.fail('build_node_data_dict|mutates-argument', 'an argument changed', c)
+        want = self.documented(c)
+        chk.count('build_node_data_dict:%s' % ('bad-length' if want is None else 'ok')); chk.count('build_node_data_dict:attrs=%d' % len(c['ad'][1]))
+        if want is None:
+            if not (r[0] == 'err' and r[1] == 'ValueError'): chk.fail('build_node_data_dict|bad-length-accepted', 'documented ValueError, got %r' % (r[:2],), c)
+        elif r[0] == 'err': chk.fail('build_node_data_dict|raises-%s' % r[1], r[2], c)
+        elif canon(r[1]) != want: chk.fail('build_node_data_dict|wrong-result', 'got %r, documented %r' % (r[1], want), c)
+        if m is not NOMODEL:
+            chk.traces += 1
+            mm = model_res(m, from_ov)
+            if (mm[0] == 'err' and not (r[0] == 'err' and r[1] == mm[1])) or (mm[0] == 'ok' and not (r[0] == 'ok' and canon(r[1]) == mm[1])):
+                chk.mismatch('build_node_data_dict: model %r vs implementation %r' % (mm, r), c)
+        chk.case(c, want is not None and len(nodes) >= 2 and len(c['ad'][1]) >= 2)
+
+
+# ================================================================================================
+# sorters
+
+def sort_key_doc(k):
+    """documented order: None first (ascending), then the natural order of the (mutually comparable) keys"""
+    return (0, 0) if k[0] == 'N' else (1, fr(k) if k[0] in 'IF' else k[1])
+
+
+def kinds_mixed(keys):
+    ks = {('n' if k[0] in 'IF' else 's') for k in keys if k[0] != 'N'}
+    return len(ks) > 1
+
+
+@helper('sort_dict_by_keys')
+class SortDict:
+    def gen(self, rng, tier):
+        n = pick_w(rng, [(0, 1), (1, 1), (2, 2), (3, 3), (5, 3), (8, 1)])
+        kinds = pick_w(rng, [('i', 3), ('s', 3), ('if', 2), ('is', 0.6)])
+        return dict(d=g_dict(rng, n, kinds, 0.2), asc=rng.choice([None, True, False]), rv=rng.choice([None, True, False]))
+
+    def expr(self, c):
+        return 'rmap (map obs_pv) (sort_dict_by_keys %s %s %s)' % (coq_dict(c['d']), cbool(c['asc'] is not False), cbool(c['rv'] is not False))
+
+    fn = staticmethod(H.sort_dict_by_keys); nm = 'sort_dict_by_keys'
+
+    def flat(self, c):
+        return [(k, v) for k, v in c['d'][1]], [k for k, _ in c['d'][1]]
+
+    def judge(self, chk, c, m):
+        d = to_py(c['d']); b = copy.deepcopy(d); nm = self.nm
+        kw = {}
+        if c['asc'] is not None: kw['ascending'] = c['asc']
+        if c['rv'] is not None: kw['return_values'] = c['rv']
+        r = call(self.fn, d, **kw)
+        if not same(d, b): chk.fail(nm + '|mutates-argument', 'dict changed', c)
+        items, keys = self.flat(c)
+        asc = c['asc'] is not False; rv = c['rv'] is not False
+        mixed = self.mixed(items)
+        chk.count('%s:%s' % (nm, 'mixed-key-kinds' if mixed else ('with-None' if any(self.has_none(k) for k, _ in items) else 'plain')))
+        if not mixed:
+            s = sorted(items, key=lambda kv: self.dockey(kv[0]), reverse=not asc)
+            want = ['L', [strip(v) if rv else self.keyout(k) for k, v in s]]
+            if r[0] == 'err':
+                chk.fail('%s|raises-%s|%s' % (nm, r[1], 'None-key-with-str-keys' if any(self.has_none(k) for k, _ in items) else 'comparable-keys'), r[2], c)
+            elif not isinstance(r[1], list) or canon(r[1]) != want:
+                chk.fail('%s|wrong-order|ascending=%s' % (nm, asc), 'got %r, documented (None first when ascending) %r' % (r[1], want), c)
+        if m is not NOMODEL:
+            chk.traces += 1
+            mm = model_res(m, lambda l: ['L', [from_ov(v) for v in l]])
+            if (mm[0] == 'err' and not (r[0] == 'err' and r[1] == mm[1])) or (mm[0] == 'ok' and not (r[0] == 'ok' and canon(r[1]) == mm[1])):
+                chk.mismatch('%s: model %r vs implementation %r' % (nm, mm, r), c)
+        chk.case(c, len(items) >= 3 and not mixed)
+
+    def mixed(self, items): return kinds_mixed([k for k, _ in items])
+    def has_none(self, k): return k[0] == 'N'
+    def dockey(self, k): return sort_key_doc(k)
+    def keyout(self, k): return strip(k)
+
+
+@helper('sort_nested_dict_by_keys')
+class SortNested(SortDict):
+    fn = staticmethod(H.sort_nested_dict_by_keys); nm = 'sort_nested_dict_by_keys'
+
+    def gen(self, rng, tier):
+        n = pick_w(rng, [(0, 1), (1, 2), (2, 3), (3, 3), (4, 1)])
+        k1 = pick_w(rng, [('i', 3), ('s', 3), ('if', 1), ('is', 0.4)]); k2 = pick_w(rng, [('i', 3), ('s', 3), ('if', 1), ('is', 0.4)])
+        d = g_dict(rng, n, k1, 0.2, lambda r: g_dict(r, pick_w(r, [(0, 1), (1, 3), (2, 3), (3, 2)]), k2, 0.2))
+        return dict(d=d, asc=rng.choice([None, True, False]), rv=rng.choice([None, True, False]))
+
+    def expr(self, c):
+        return 'rmap (map obs_pv) (sort_nested_dict_by_keys %s %s %s)' % (coq_dict(c['d']), cbool(c['asc'] is not False), cbool(c['rv'] is not False))
+
+    def flat(self, c):
+        items = [((k1, k2), v) for k1, inner in c['d'][1] for k2, v in inner[1]]
+        return items, [k for k, _ in items]
+
+    def mixed(self, items):
+        # a number has to be compared with a str: at level 1, or at level 2 within one level-1 key
+        if kinds_mixed([k[0] for k, _ in items]): return True
+        groups = {}
+        for (k1, k2), _ in items: groups.setdefault(key_id(k1), []).append(k2)
+        return any(kinds_mixed(g) for g in groups.values())
+    def has_none(self, k): return k[0][0] == 'N' or k[1][0] == 'N'
+    def dockey(self, k): return (sort_key_doc(k[0]), sort_key_doc(k[1]))
+    def keyout(self, k): return ['L', [strip(k[0]), strip(k[1])]]
+
+
+# ================================================================================================
+# key rewriters
+
+@helper('change_dict_key')
+class ChangeKey:
+    def gen(self, rng, tier):
+        d = g_dict(rng, pick_w(rng, [(0, 0.5), (1, 2), (2, 3), (4, 3)]), 'is', 0.15)
+        keys = [k for k, _ in d[1]]
+        old = rng.choice(keys) if keys and rng.random() < 0.85 else g_key(rng, 'is')
+        new = pick_w(rng, [(g_key(rng, 'is'), 4), (eS('new'), 3), (old, 0.7), (eF(old[1]) if old[0] == 'I' else old, 0.5)])
+        return dict(d=d, old=old, new=new)
+
+    def expr(self, c):
+        return 'rmap obs_dict (change_dict_key %s %s %s)' % (coq_dict(c['d']), coq_key(c['old']), coq_key(c['new']))
+
+    def judge(self, chk, c, m):
+        d = to_py(c['d']); pairs = c['d'][1]; old, new = c['old'], c['new']
+        r = call(H.change_dict_key, d, to_py(old), to_py(new))
+        present = any(key_id(k) == key_id(old) for k, _ in pairs)
+        newpresent = any(key_id(k) == key_id(new) for k, _ in pairs) and key_id(new) != key_id(old)
+        chk.count('change_dict_key:%s' % ('old-missing' if not present else ('new-already-present' if newpresent else 'plain')))
+        if not present:
+            if not (r[0] == 'err' and r[1] == 'KeyError'): chk.fail('change_dict_key|missing-key-accepted', 'documented KeyError, got %r' % (r[:2],), c)
+            elif canon(d) != strip(c['d']): chk.fail('change_dict_key|dict-changed-on-error', 'dict changed although KeyError was raised', c)
+        elif r[0] == 'err': chk.fail('change_dict_key|raises-%s' % r[1], r[2], c)
+        elif not newpresent:
+            # documented: in place, old key gone, new key carries the old value and appears at the end
+            val = [v for k, v in pairs if key_id(k) == key_id(old)][0]
+            want = ['D', [[strip(k), strip(v)] for k, v in pairs if key_id(k) != key_id(old)] + [[strip(new), strip(val)]]]
+            if r[1] is not None or canon(d) != want: chk.fail('change_dict_key|wrong-result', 'dict is now %r, documented %r' % (d, want), c)
+        if m is not NOMODEL:
+            chk.traces += 1
+            mm = model_res(m, from_ov)
+            if (mm[0] == 'err' and not (r[0] == 'err' and r[1] == mm[1])) or (mm[0] == 'ok' and not (r[0] == 'ok' and canon(d) == mm[1])):
+                chk.mismatch('change_dict_key: model %r vs dict after the call %r (%r)' % (mm, d, r[:2]), c)
+        chk.case(c, present and len(pairs) >= 2)
+
+
+NUMSTR = ['0', '7', '12', '-3', '+4', '007', '3.5', '-0.25', '.5', '2.', '3.0', '-8.00', '10.125', '0.0']
+NONNUM = ['a', 'x1', '1x', '', '.', '-', '+', '1.2.3', 'null', 'one', '--1', '1-']
+OUTSIDE_GRAMMAR = [' 4 ', '1_0', '1e3', '2E1', '2.5e0']     # numeric for Python, outside the model's grammar: oracle only
+
+
+def doc_numeric_key(s):
+    """documented: a string representing an integer becomes that integer (as coded: any other number becomes a float)"""
+    try: x = float(s)
+    except ValueError: return eS(s)
+    if math.isnan(x) or math.isinf(x): return None
+    fx = Fraction(x)
+    return eI(int(fx)) if fx.denominator == 1 else eF(fx)
+
+
+@helper('replace_dict_numeric_string_keys')
+class ReplaceNumeric:
+    def gdict(self, rng, depth, outside):
+        pairs = []; seen = set()
+        for _ in range(pick_w(rng, [(0, 1), (1, 2), (2, 3), (3, 3), (5, 1)])):
+            k = pick_w(rng, [(eS(rng.choice(NUMSTR)), 5), (eS(rng.choice(NONNUM)), 2), (eI(rng.randint(0, 12)), 1.5), (eN(), 0.4), (eF(Fraction(7, 2)), 0.4)] +
+                       ([(eS(rng.choice(OUTSIDE_GRAMMAR)), 3)] if outside else []))
+            if key_id(k) in seen: continue
+            seen.add(key_id(k))
+            v = pick_w(rng, [(None, 2 if depth < 2 else 0), ('list', 0.7), ('scalar', 4)])
+            if v is None: v = self.gdict(rng, depth + 1, outside)
+            elif v == 'list': v = eL([eD([[eS('9'), eI(1)]]), eI(2)])
+            else: v = g_scalar(rng)
+            pairs.append([k, v])
+        return ['D', pairs]
+
+    def gen(self, rng, tier):
+        outside = rng.random() < 0.15
+        return dict(d=self.gdict(rng, 0, outside), outside=outside)
+
+    def expr(self, c):
+        return None if c['outside'] else 'rmap obs_dict (replace_dict_numeric_string_keys %s)' % coq_dict(c['d'])
+
+    def documented(self, e):
+        if e[0] != 'D': return strip(e)
+        pairs = []
+        for k, v in e[1]:
+            nk = doc_numeric_key(k[1]) if k[0] == 'S' else strip(k)
+            if nk is None: return None
+            w = self.documented(v)
+            if w is None: return None
+            pairs.append([nk, w])
+        return dict_from_pairs(pairs)
+
+    fn = staticmethod(H.replace_dict_numeric_string_keys); nm = 'replace_dict_numeric_string_keys'
+
+    def judge(self, chk, c, m):
+        d = to_py(c['d']); b = copy.deepcopy(d); nm = self.nm
+        r = call(self.fn, d)
+        if not same(d, b): chk.fail(nm + '|mutates-argument', 'documented to return a new dict, but the argument changed', c)
+        want = self.documented(c['d'])
+        def has_intfloat(e): return e[0] == 'D' and any((k[0] == 'S' and re.fullmatch(r'[+-]?(\d+\.\d*|\.\d+|\d+[eE]\d+)', k[1]) and doc_numeric_key(k[1])[0] == 'I') or has_intfloat(v) for k, v in e[1])
+        chk.count('%s:%s' % (nm, 'outside-model-grammar' if c.get('outside') else 'in-grammar'))
+        if r[0] == 'err':
+            chk.fail('%s|raises-%s|%s' % (nm, r[1], 'integer-valued-float-string' if has_intfloat(c['d']) else 'other'), r[2], c)
+        elif r[1] is d: chk.fail(nm + '|returns-argument', 'documented to return a new dict', c)
+        elif want is not None and canon(r[1]) != want:
+            chk.fail(nm + '|wrong-result', 'got %r, documented %r' % (r[1], want), c)
+        if m is not NOMODEL:
+            chk.traces += 1
+            mm = model_res(m, from_ov) if isinstance(m, tuple) and m[0] in ('Ok', 'Err') else ('ok', from_ov(m))
+            if (mm[0] == 'err' and not (r[0] == 'err' and r[1] == mm[1])) or (mm[0] == 'ok' and not (r[0] == 'ok' and canon(r[1]) == mm[1])):
+                chk.mismatch('%s: model %r vs implementation %r' % (nm, mm, r), c)
+        chk.case(c, len(c['d'][1]) >= 2 and any(v[0] == 'D' for _, v in c['d'][1]))
+
+
+@helper('replace_dict_null_keys')
+class ReplaceNull(ReplaceNumeric):
+    fn = staticmethod(H.replace_dict_null_keys); nm = 'replace_dict_null_keys'
+
+    def gen(self, rng, tier):
+        def gd(depth):
+            pairs = []; seen = set()
+            for _ in range(pick_w(rng, [(0, 1), (1, 2), (2, 3), (3, 3)])):
+                k = pick_w(rng, [(eS('null'), 3), (eS(rng.choice(['a', 'Null', 'NULL', 'nul', '7'])), 3), (eI(rng.randint(0, 5)), 1), (eN(), 0.6)])
+                if key_id(k) in seen: continue
+                seen.add(key_id(k))
+                v = gd(depth + 1) if (depth < 2 and rng.random() < 0.35) else (eL([eD([[eS('null'), eI(1)]])]) if rng.random() < 0.1 else g_scalar(rng))
+                pairs.append([k, v])
+            return ['D', pairs]
+        return dict(d=gd(0), outside=False)
+
+    def expr(self, c):
+        return 'obs_dict (replace_dict_null_keys %s)' % coq_dict(c['d'])
+
+    def documented(self, e):
+        if e[0] != 'D': return strip(e)
+        return dict_from_pairs([[eN() if k == ['S', 'null'] else strip(k), self.documented(v)] for k, v in e[1]])
+
+
+# ================================================================================================
+# predicates, rounding, list comparison
+
+def g_any(rng, depth=0):
+    k = pick_w(rng, [('scalar', 6), ('list', 1.5 if depth < 2 else 0), ('dict', 1 if depth < 2 else 0)])
+    if k == 'scalar': return g_scalar(rng)
+    if k == 'list': return eL([g_any(rng, depth + 1) for _ in range(rng.randint(0, 3))], rng.choice(['list', 'list', 'tuple']))
+    return g_dict(rng, rng.randint(0, 2), 'is', 0.1, lambda r: g_any(r, depth + 1))
+
+
+@helper('is_integer')
+class IsInteger:
+    def gen(self, rng, tier):
+        x = pick_w(rng, [(g_int(rng, -50, 50), 3), (eF(rng.randint(-9, 9)), 2), (g_dy(rng), 3), (eF(Fraction(2 ** 60)), 0.3), (eF(Fraction(1, 2 ** 40)), 0.3), (g_any(rng), 3)])
+        return dict(x=x, which=rng.choice(['is_integer', 'is_integer', 'is_iterable']))
+
+    def expr(self, c):
+        if any(t in json.dumps(c['x']) for t in ('tuple',)): return None
+        return '%s %s' % (c['which'], coq_pv(c['x']))
+
+    def judge(self, chk, c, m):
+        x = to_py(c['x']); b = copy.deepcopy(x); e = c['x']; nm = c['which']
+        r = call(getattr(H, nm), x)
+        if not same(x, b): chk.fail(nm + '|mutates-argument', 'x changed', c)
+        chk.count('%s:%s' % (nm, {'N': 'None', 'I': 'int', 'F': 'float', 'S': 'str', 'L': 'list/tuple', 'D': 'dict'}[e[0]]))
+        want = (e[0] == 'I' or (e[0] == 'F' and Fraction(e[1], e[2]).denominator == 1)) if nm == 'is_integer' else e[0] in 'LD'
+        if r[0] == 'err': chk.fail('%s|raises-%s' % (nm, r[1]), r[2], c)
+        elif r[1] is not want: chk.fail('%s|wrong-answer|%s' % (nm, e[0]), '%s(%r) = %r, documented %r' % (nm, x, r[1], want), c)
+        if m is not NOMODEL:
+            chk.traces += 1
+            if not (r[0] == 'ok' and r[1] is m): chk.mismatch('%s: model %r vs %r' % (nm, m, r), c)
+        chk.case(c, e[0] in 'IF' if nm == 'is_integer' else True)
+
+
+@helper('round_dict_values')
+class RoundDict:
+    def gen(self, rng, tier):
+        def val(r):
+            return pick_w(r, [(eF(Fraction(2 * r.randint(-6, 9) + 1, 2)), 3), (eF(Fraction(r.randint(-24, 40), 8)), 4), (g_int(r), 2), (eF(r.randint(-3, 3)), 1), (g_str(r), 0.15), (eN(), 0.1)])
+        return dict(d=g_dict(rng, pick_w(rng, [(0, 1), (1, 2), (3, 4), (5, 2)]), 'is', 0.1, val),
+                    rt=pick_w(rng, [('up', 3), ('down', 3), ('nearest', 4), (None, 2), ('omit', 1), ('other', 0.5)]))
+
+    def expr(self, c):
+        rt = {'up': 'RUp', 'down': 'RDown', 'nearest': 'RNearest'}.get(c['rt'], 'ROther')
+        return 'rmap obs_dict (round_dict_values %s %s)' % (coq_dict(c['d']), rt)
+
+    def judge(self, chk, c, m):
+        d = to_py(c['d']); b = copy.deepcopy(d); pairs = c['d'][1]; rt = c['rt']
+        r = call(H.round_dict_values, d) if rt == 'omit' else call(H.round_dict_values, d, rt)
+        if not same(d, b): chk.fail('round_dict_values|mutates-argument', 'documented to return a new dict, but the argument changed', c)
+        chk.count('round_dict_values:%s' % rt)
+        numeric = all(v[0] in 'IF' for _, v in pairs)
+        if rt in ('up', 'down', 'nearest'):
+            if numeric:
+                if r[0] == 'err': chk.fail('round_dict_values|raises-%s' % r[1], r[2], c)
+                elif r[1] is d or [canon(k) for k in r[1]] != [strip(k) for k, _ in pairs]: chk.fail('round_dict_values|keys', 'keys changed or same object returned: %r' % (r[1],), c)
+                else:
+                    for (k, v), got in zip(pairs, r[1].values()):
+                        x = fr(v); g = canon(got)
+                        ok = g[0] == 'I' and ((rt == 'up' and g[1] == math.ceil(x)) or (rt == 'down' and g[1] == math.floor(x)) or
+                                              (rt == 'nearest' and abs(g[1] - x) <= Fraction(1, 2)))
+                        if not ok: chk.fail('round_dict_values|wrong-value|%s' % rt, 'value %s rounded %s gives %r' % (x, rt, got), c); break
+        elif r[0] == 'err': chk.fail('round_dict_values|raises-%s' % r[1], r[2], c)
+        elif r[1] is d or canon(r[1]) != strip(c['d']): chk.fail('round_dict_values|no-rounding-changed-values', 'got %r' % (r[1],), c)
+        if m is not NOMODEL:
+            chk.traces += 1
+            mm = model_res(m, from_ov)
+            if (mm[0] == 'err' and not (r[0] == 'err' and r[1] == mm[1])) or (mm[0] == 'ok' and not (r[0] == 'ok' and canon(r[1]) == mm[1])):
+                chk.mismatch('round_dict_values: model %r vs implementation %r' % (mm, r), c)
+        chk.case(c, rt in ('up', 'down', 'nearest') and numeric and len(pairs) >= 1)
+
+
+def multiset_key(e):
+    """canonical hashable form identifying python-equal values (1 == 1.0, dict order irrelevant)"""
+    if e[0] in 'IF': return ('n', fr(e))
+    if e[0] == 'L': return ('L', tuple(multiset_key(x) for x in e[1]))
+    if e[0] == 'D': return ('D', frozenset((key_id(k), multiset_key(v)) for k, v in e[1]))
+    return tuple(e)
+
+
+@helper('compare_unhashable_lists')
+class CompareLists:
+    def gen(self, rng, tier):
+        def elem(r):
+            return pick_w(r, [(eL([g_int(r, 0, 2) for _ in range(r.randint(0, 2))]), 4), (eD([[eS(r.choice('ab')), g_int(r, 0, 2)]]), 2), (g_int(r, 0, 3), 2),
+                              (eD([[eS('a'), eI(1)], [eS('b'), eI(2)]]), 0.5), (eD([[eS('b'), eI(2)], [eS('a'), eI(1)]]), 0.5), (eF(1), 0.5), (eN(), 0.3)])
+        l1 = [elem(rng) for _ in range(pick_w(rng, [(0, 1), (1, 2), (2, 3), (3, 3), (5, 2)]))]
+        act = pick_w(rng, [('perm', 5), ('drop', 1), ('dup', 2), ('change', 2), ('rand', 1)])
+        l2 = list(l1); rng.shuffle(l2)
+        if act == 'drop' and l2: l2.pop()
+        elif act == 'dup' and len(l2) >= 2: l2[0] = l2[1]
+        elif act == 'change' and l2: l2[rng.randrange(len(l2))] = elem(rng)
+        elif act == 'rand': l2 = [elem(rng) for _ in range(len(l1))]
+        return dict(l1=eL(l1), l2=eL(l2, rng.choice(['list', 'list', 'tuple'])))
+
+    def expr(self, c):
+        return 'compare_unhashable_lists pv_eqb %s %s' % (clist([coq_pv(x) for x in c['l1'][1]]), clist([coq_pv(x) for x in c['l2'][1]]))
+
+    def judge(self, chk, c, m):
+        l1 = to_py(c['l1']); l2 = to_py(c['l2']); b = copy.deepcopy((l1, l2))
+        r = call(H.compare_unhashable_lists, l1, l2)
+        if not (same(l1, b[0]) and same(l2, b[1])): chk.fail('compare_unhashable_lists|mutates-argument', 'a list changed (the function must work on a copy)', c)
+        from collections import Counter
+        want = Counter(multiset_key(x) for x in strip(c['l1'])[1]) == Counter(multiset_key(x) for x in strip(c['l2'])[1])
+        chk.count('compare_unhashable_lists:%s' % want)
+        if r[0] == 'err': chk.fail('compare_unhashable_lists|raises-%s' % r[1], r[2], c)
+        elif r[1] is not want: chk.fail('compare_unhashable_lists|wrong-answer', 'got %r for %r vs %r; same elements with the same counts: %r' % (r[1], l1, l2, want), c)
+        if m is not NOMODEL:
+            chk.traces += 1
+            if not (r[0] == 'ok' and r[1] is m): chk.mismatch('compare_unhashable_lists: model %r vs %r' % (m, r), c)
+        chk.case(c, len(c['l1'][1]) >= 2)
+
+
+# ================================================================================================
+# driver
+
+RULE = ('per helper of stockpyl.helpers a structured generator (sizes 0..8, ties, empty/singleton containers, scalar/list/tuple/ndarray/dict/None shapes, '
+        'admissible and inadmissible lengths, tolerance-boundary pairs for dict_match, numeric-string keys, None/str/number key kinds) plus malformed inputs; '
+        'numbers are ints or dyadic rationals so that the implementation computes exactly (FFT convolution, 1/m pmfs and the Irwin-Hall sum compared at 1e-12..1e-10 absolute). '
+        'Every case: implementation vs Gallina model (Alg/Helpers.v, vm_compute), documented result recomputed independently in Python, argument deep-copied and compared after the call. '
+        'non-trivial = the helper-specific interesting branch is exercised (>=2 arrays of length >=2, ties or >=3 entries for find_nearest, differing non-empty dicts for dict_match, admissible list shapes, >=3 comparable keys for the sorters ...); '
+        'distinct = distinct (helper, input).')
+
+WEIGHTS = {'convolve_many': 1.4, 'find_nearest': 1.6, 'dict_match': 1.8, 'irwin_hall': 1.0, 'sum_of_discrete_uniforms_pmf': 0.6, 'sum_of_discretes_distribution': 0.4,
+           'is_integer': 0.6, 'min_of_dict': 0.5, 'nearest_dict_value': 0.5}
+
+
+def explore(chk, per_helper, do_model=True, only=None):
+    cases = []
+    for name, h in HELPERS.items():
+        if only and name not in only: continue
+        for _ in range(max(1, int(per_helper * WEIGHTS.get(name, 1.0)))):
+            cases.append((name, h.gen(chk.rng, chk.tier)))
+    exprs = []; where = {}
+    if do_model:
+        for i, (name, c) in enumerate(cases):
+            e = HELPERS[name].expr(c)
+            if e is not None:
+                where[i] = len(exprs); exprs.append(e)
+    vals = coq_eval_sharded('c20', 'Alg.Helpers', DEFS, exprs, shard=200) if exprs else []
+    for i, (name, c) in enumerate(cases):
+        c = dict(c, helper=name)
+        m = vals[where[i]] if i in where else NOMODEL
+        try:
+            HELPERS[name].judge(chk, c, m)
+        except Exception as ex:
+            import traceback; traceback.print_exc()
+            chk.broken.append(('harness-error:%s' % name, '%s: %s on %s' % (type(ex).__name__, ex, json.dumps(jsonable(c))[:300])))
+
+
+def run(chk):
+    chk.rule = RULE
+    chk.trusted += ['model Alg/Helpers.v is hand-written; tied to /repo/src/stockpyl/helpers.py by comparing return values / raised exception kinds with the implementation on generated inputs for every modelled helper',
+                    'library calls are modelled by their specification: np.searchsorted(side=left) on a sorted array = number of entries < v; ndarray.argmin / min(key=) = first minimiser; '
+                    'sorted() = the unique ordering of pairwise-distinct comparable keys, TypeError iff a number must be compared with a str; np.fft convolution = exact linear convolution; math.isclose = CPython formula over Q',
+                    'numeric-string grammar of the model: [+-]?digits[.digits] (no exponent/blank/underscore/inf/nan); strings outside it are checked by the Python oracle only',
+                    'Irwin-Hall closed form is kept as an oracle identity (not proved equal to the distribution of the sum); the harness compares it with exact piecewise polynomials obtained by repeated integration']
+    chk.assume += ['floating-point rounding is not modelled (exact rationals); generated numbers are ints/dyadics or compared at 1e-12..1e-10 absolute',
+                   'dict keys are hashable atoms None|int|float|str; bool, nan and inf are outside the model']
+    chk.proof()
+    per = 60 if chk.tier == 'quick' else 700
+    explore(chk, per)
+    if (chk.broken or chk.mismatches) and not chk.fails:
+        explore(chk, per * (6 if chk.tier == 'quick' else 2), do_model=False)
+
+
+def replay(chk, rp):
+    c = rp['case']; name = c['helper']
+    h = HELPERS[name]
+    m = NOMODEL
+    try:
+        e = h.expr(c)
+        if e is not None: m = coq_eval('c20r', 'Alg.Helpers', DEFS, [e])[0]
+    except Exception as ex:
+        print('model evaluation failed:', ex)
+    print('helper:', name, ' model:', m if m is not NOMODEL else '(none)')
+    h.judge(chk, c, m)
